@@ -9,6 +9,7 @@ import c10
 import c11_core
 import c11_engine
 import x11dl
+import x11dr
 import x11fw
 
 
@@ -39,6 +40,13 @@ def run(ctx, replay):
     _fresh_overlay(ctx)
     x11dl.run_tier(ctx)
     # forwarder / failover mode: one reply, own id and question, in time, whatever the configured upstreams do (Forward.tla)
-    ctx.overlay_tags.add("x11fw")
+    # shutdown and drain barriers, slab cache, TCP job tokens: "after load stops the server returns to quiescence with no
+    # stuck goroutines, held slabs or leaked limiter slots" (Drain.tla / SlabCache.tla, gated on the real server.Server)
+    ctx.overlay_tags.add("x11dr")
     _fresh_overlay(ctx)
-    x11fw.run_tier(ctx, families=("c11",))
+    x11dr.run_tier(ctx)
+    if ctx.tier == "thorough":
+        # (quick: the same driver runs in C12 and C19 for their families; the c11 family is judged in the thorough tier)
+        ctx.overlay_tags.add("x11fw")
+        _fresh_overlay(ctx)
+        x11fw.run_tier(ctx, families=("c11",))
